@@ -130,6 +130,7 @@ Proof. intros tc ty0 more. destruct ty0; reflexivity. Qed.
 Theorem C02_type_of'_by_suffix : forall c h more, by_suffix (xscan h) = true ->
   type_of' c (h ++ more) = req_type (serves_test c) (type_of h) more.
 Proof. exact Lemmas_C02i.type_of'_split. Qed.
+Print Assumptions xscan_refines_scan.
 Print Assumptions C02_type_of'_by_suffix.
 
 (* ================================================================== *)
